@@ -203,9 +203,19 @@ def run_property(prop, tier="quick", seed=0, explain=None):
                     alt = second.get((o.cfg, o.rule, o.key))
                     print("  [view %s] %s|%s: %s" % (view, o.rule, o.key[:100], "absent" if alt is None else
                           ("holds" if all(a.ok for a in alt) else "fails: " + json.dumps([a.detail for a in alt if not a.ok], default=str)[:1500])))
+            promoted = set()
             for o in failing:
                 alt = second.get((o.cfg, o.rule, o.key))
                 if alt and all(a.ok for a in alt) and not any(a.noverdict for a in alt):
+                    if o.key.startswith("floor:") and o.rule not in SITE_RULES and moved_bad.get((o.cfg, o.rule)):
+                        # the instances that bring the count back up exist only in this view (code of a new helper seen
+                        # inside its callers) — then what the rule says about them counts too: a floor is not rescued by
+                        # instances that fail their own obligation
+                        for a in moved_bad[(o.cfg, o.rule)]:
+                            if (a.cfg, a.rule, a.key) not in promoted:
+                                promoted.add((a.cfg, a.rule, a.key))
+                                a.what += "  [seen with %s]" % ("newly extracted private helpers folded back" if view == "norm" else "private helpers inlined")
+                                ctx.obligations.append(a)
                     o.ok = True
                     o.what += "  [holds with %s]" % ("newly extracted private helpers folded back" if view == "norm" else "private helpers inlined")
                     rescued += 1
